@@ -3,6 +3,7 @@
     target class, whether the probe handler ran, and the session table. *)
 From AGH Require Import Base.Run Model.Session.
 From AGH Require Export Model.AuthHttp.
+From AGH Require Import Proofs.AuthGlob.
 From stdpp Require Import gmap.
 Local Open Scope Z_scope.
 
@@ -20,7 +21,10 @@ Inductive case :=
   (* a request without valid credentials through a real mux (path spellings,
      real registrations): the model side of the statement is only that the
      handler did not run *)
-  | CMux (public : bool) (ran : bool).
+  | CMux (public : bool) (ran : bool)
+  (* isPublicResource(p) as observed; compared with the wrapper model's
+     [is_public] and with the shared model of path.Match (Base/Glob.v) *)
+  | CPublic (p : bytes) (obs : bool).
 
 Definition mk_sess (t : stable) : sstate :=
   let m := list_to_map (map (fun '(k, (u, e)) => (k, {| s_user := u; s_expire := e |})) t) : gmap N sess in
@@ -62,6 +66,9 @@ Definition case_ok (c : case) : bool :=
       let '(ran, st, loc, m) := run_probe e sess k r in
       Bool.eqb ran (o_ran o) && (st =? o_status o) && (loc =? o_loc o) && stab_ok m (o_sess o)
   | CMux public ran => public || negb ran
+  | CPublic p o =>
+      Bool.eqb (is_public p) o &&
+      match glob_public p with Some b => Bool.eqb b o | None => false end
   end.
 
 Definition mismatches := Base.Run.mismatches case_ok.
@@ -72,4 +79,5 @@ Definition explain (c : case) : bool * Z * Z * stable :=
       let '(ran, st, loc, m) := run_probe e sess k r in
       (ran, st, loc, map (fun '(k, s) => (k, (s_user s, s_expire s))) (map_to_list m))
   | CMux _ _ => (false, 0, 0, [])
+  | CPublic p _ => (is_public p, match glob_public p with Some true => 1 | Some false => 0 | None => -1 end, 0, [])
   end.
